@@ -107,6 +107,8 @@ def analyze(case, seed=0, fault_at=None, fault_kind="raise"):
     a.ctr["applies"] = 1
     if case.get("driver") == "passes":
         a.ctr["applies_through_passmanager"] = 1
+    if case.get("cross_patch_refs"):
+        a.ctr["applies_with_cross_patch_references"] = 1
     a.ctr["patch_invocations"] = len(run.rec.invocations)
     return a
 
